@@ -60,6 +60,7 @@ type handCfg struct {
 	advance  int64                           // seconds the clock is advanced before each wager action (when no timer is due earlier)
 	atWager  func(td *TD, hand int, nth int) // called at each wager request before acting (nth = index within the hand)
 	between  func(td *TD, hand int)          // called when hand `hand` has been settled and the table is in standby
+	late     func(td *TD, hand int)          // called in standby once the next hand has been set up (open-game wait)
 	maxSteps int
 }
 
@@ -71,6 +72,7 @@ type runner struct {
 	viol        *Viol
 	wagerN      map[int]int
 	betweenDone map[int]bool
+	lateDone    map[int]bool
 }
 
 func (r *runner) check(v *Viol) bool {
@@ -137,6 +139,13 @@ func (r *runner) run() string {
 			r.betweenDone[t.State.GameCount] = true
 			hc.between(td, t.State.GameCount)
 			continue
+		}
+		if hc.late != nil && t.State.Status == pt.TableStateStatus_TableGameStandby && !r.lateDone[t.State.GameCount] && t.State.GameCount >= 1 {
+			if og := pt.VerifOpenGameManager(td.te); og != nil && og.GetState().GameCount == t.State.GameCount+1 {
+				r.lateDone[t.State.GameCount] = true
+				hc.late(td, t.State.GameCount)
+				continue
+			}
 		}
 		switch p.Kind {
 		case "ready", "ante", "blinds":
@@ -235,7 +244,7 @@ func runHandCfg(prefix []int, hc *handCfg, vcfg vrt.Config, mk func(td *TD) []Mo
 				}
 			}
 		}
-		r := &runner{td: td, hc: hc, wagerN: map[int]int{}, betweenDone: map[int]bool{}}
+		r := &runner{td: td, hc: hc, wagerN: map[int]int{}, betweenDone: map[int]bool{}, lateDone: map[int]bool{}}
 		r.mons = mk(td)
 		td.start()
 		res := r.run()
